@@ -68,7 +68,7 @@ PROPS = {
             "Rust Debug formatting, pipes and exit status are process-level behaviour: modelled, compared, not proved."),
 }
 
-CLAIMED = ["C02", "C04", "C05", "C06", "C07", "C08", "C09", "C10", "C11", "C12", "C13", "C14", "C15", "C16", "C17", "C19"]
+CLAIMED = sorted(PROPS)
 
 
 def main():
